@@ -67,7 +67,7 @@ theorem lastAt_none_of (l : List (Nat × Nat × α)) (p q : Nat) (h : ∀ c ∈ 
 /-- coordinates of a real sheet: rows < 2^20, columns < 2^14 (`MAX_ROWS`, `MAX_COLUMNS`) -/
 def InSheet (cells : List (Nat × Nat × α)) : Prop := ∀ c ∈ cells, c.1 < 1048576 ∧ c.2.1 < 16384
 
-theorem sparsePre_of_sorted (L : List (Nat × Nat × α)) (hs : RowSorted L) (hb : InSheet L) : sparsePre L := by
+theorem sparsePreSorted_of_sorted (L : List (Nat × Nat × α)) (hs : RowSorted L) (hb : InSheet L) : sparsePreSorted L := by
   cases L with
   | nil => trivial
   | cons c0 rest =>
@@ -88,6 +88,9 @@ theorem sparsePre_of_sorted (L : List (Nat × Nat × α)) (hs : RowSorted L) (hb
     · intro c hc c' hc'
       have := hb c hc; have := hb c' hc'
       simp only [U32]; omega
+
+theorem sparsePre_of_sorted (L : List (Nat × Nat × α)) (hs : RowSorted L) (hb : InSheet L) : sparsePre L :=
+  sparsePre_of_old L (sparsePreSorted_of_sorted L hs hb)
 
 theorem keepLazy_sorted (cells : List (Nat × Nat × α)) (hs : RowSorted cells) (hb : InSheet cells) (h : Hdr) :
     RowSorted (keepLazy cells h) ∧ InSheet (keepLazy cells h) := by
